@@ -14,6 +14,8 @@ import (
 	"context"
 	"errors"
 	"fmt"
+	"github.com/openbao/openbao/v2/internal/vault/barrier"
+	"github.com/openbao/openbao/v2/internal/vault/policy"
 	"path"
 	"sort"
 	"strings"
@@ -646,10 +648,73 @@ func c02RulePaths(mounts []string) []string {
 	return ps
 }
 
+// c02InvalidatedPolicy (directed): a node that learns of a policy change through a STORAGE INVALIDATION (an HA standby
+// serving requests) honours it on the very next request — for flat policy names and for names with several path
+// segments ("team/dev"), in the root namespace and in a child namespace. The new policy text reaches storage behind the
+// caches, then the key is invalidated. Op line: polinval <name> <ns> => before:<class>|after:<class>
+func c02InvalidatedPolicy(t *testing.T, out *vh.Out) {
+	for _, polName := range []string{"flat", "team/dev", "a/b/c"} {
+		for _, where := range []string{"root", "child"} {
+			out.Reset()
+			c, root := testCore_Invalidate_TestCore(t, nil)
+			ctx := vhRootCtx()
+			if where == "child" {
+				ns := &namespace.Namespace{ID: "c02i", Path: "c02i"}
+				TestCoreCreateNamespaces(t, c, ns)
+				ctx = namespace.ContextWithNamespace(context.Background(), ns)
+			}
+			ns, _ := namespace.FromContext(ctx)
+			do := func(op logical.Operation, path, tok string, data map[string]any) (string, *logical.Response) {
+				r := &logical.Request{Operation: op, Path: path, ClientToken: tok, Data: data}
+				r.SetTokenEntry(nil)
+				resp, err := c.HandleRequest(ctx, r)
+				return c02Class(resp, err), resp
+			}
+			if cl, _ := do(logical.UpdateOperation, "sys/policies/acl/"+polName, root, map[string]any{"policy": `path "sys/mounts" { capabilities = ["read"] }`}); cl != "ok" {
+				t.Fatalf("policy %s: %s", polName, cl)
+			}
+			cl, resp := do(logical.UpdateOperation, "auth/token/create", root, map[string]any{"policies": []string{polName}, "no_default_policy": true, "ttl": "1h"})
+			if cl != "ok" || resp == nil || resp.Auth == nil {
+				t.Fatalf("token: %s", cl)
+			}
+			tok := resp.Auth.ClientToken
+			before, _ := do(logical.ReadOperation, "sys/mounts", tok, nil)
+			pol, err := c.policyStore.GetPolicy(ctx, polName, policy.TypeACL)
+			if err != nil || pol == nil {
+				t.Fatalf("get policy: %v", err)
+			}
+			clone := pol.ShallowClone()
+			clone.Raw = `path "sys/does-not-exist" { capabilities = ["read"] }`
+			clone.DataVersion++
+			storagePath := barrier.SystemBarrierPrefix + policy.ACLSubPath + polName
+			entry, err := logical.StorageEntryJSON(storagePath, clone)
+			if err != nil {
+				t.Fatal(err)
+			}
+			testCore_Invalidate_sneakValueAroundCache(t, ctx, c, entry)
+			key := storagePath
+			if ns.ID != namespace.RootNamespaceID {
+				key = path.Join(barrier.NamespacePrefix, ns.UUID, storagePath)
+			}
+			if err := c.invalidateSynchronous(key); err != nil {
+				t.Fatalf("invalidate: %v", err)
+			}
+			after, _ := do(logical.ReadOperation, "sys/mounts", tok, nil)
+			res := "before:" + before + "|after:" + after
+			if before == "ok" && after == "ok" {
+				res += "!VIOL:policy " + polName + " (" + where + " namespace) was replaced by one that grants nothing and its storage key invalidated, and the very next request of a token holding only that policy is still granted#policy-change-not-honoured-after-invalidation"
+			}
+			out.Op(res, "polinval", polName, where)
+			_ = c.Shutdown()
+		}
+	}
+}
+
 func TestVerifC02(t *testing.T) {
 	out := vh.Open()
 	defer out.Close()
 	master := vh.NewRand(vh.Seed())
+	c02InvalidatedPolicy(t, out)
 	ncases, nops := 600, 90
 	if vh.Thorough() {
 		ncases, nops = 12000, 140
